@@ -9,6 +9,8 @@
 (*          size first last         Size(), first and last key AFTER it    *)
 (*   Proj   keys vals               full enumeration (every 16 events and  *)
 (*                                  at the end of a history)               *)
+(*   ToBytes pairs copy             the entries as decoded from the bytes  *)
+(*                                  written / as read back by ToObject     *)
 (*                                                                         *)
 (* Keys are ranks in the history's sorted key pool, results are tuples     *)
 (* (<<v>> or the type's "absent"), see LinkedDict.  A recorded panic or    *)
